@@ -163,7 +163,7 @@ MBlockAdv(W, S) ==
           /\ txs' = txs1
           /\ conf' = [x \in DOMAIN conf \cup ids \cup cheatTx |-> IF x \in DOMAIN conf THEN conf[x] ELSE height + 1]
           /\ starved' = <<starved[1] \/ LeftOut(0, ids), starved[2] \/ LeftOut(1, ids)>>
-          /\ UNCHANGED <<par, com, known, handed, bal>>
+          /\ UNCHANGED <<par, com, known, handed, bal, asked>> /\ rb' = NoRb
   /\ nextId' = IF S = {} THEN nextId ELSE nextId + 1
   /\ blocks' = blocks + 1 /\ stage' = "react"
   /\ hist' = Append(hist, [op |-> "block", who |-> W, cheat |-> {r.hash : r \in S}, h |-> height + 1])
